@@ -9,10 +9,17 @@
    built from the reference bases of the M blocks only, DS is written only when a cut site exists.
    [md_old_stretch] keeps the unrepaired reference stretch for the refutation lemma.
    Floats: likelihoods are exact rationals over the per-quality correctness probability
-   pc : Z -> Q (IEEE rounding is not modelled). *)
+   pc : Z -> Q (IEEE rounding is not modelled).  Phred qualities of the consensus bases:
+   rint(-10 log10 x) is the number of thresholds 10^(-(2k+1)/20) above x; the thresholds are a
+   table tt : list Q (libm log10 / IEEE rounding are not modelled).
+   The expressions marked gen_* are regenerated from the current source on every run
+   (coq/Gen/GenDedup.v, tools/c15.py regen_dedup): gap / block lengths and operation codes of
+   get_CIGAR, the split and first-block tests of generate_partial_reads, the match / flush tests of
+   create_MD_tag, the no-call test of phredscores_to_base_call, the clip bounds and the default
+   call of extract_stretch_from_dict, the tag table of write_tags_to_psuedoreads. *)
 From Coq Require Import ZArith NArith List Bool QArith Decimal.
 Import ListNotations.
-From SCMO Require Import Lib.Val Lib.PyInt.
+From SCMO Require Import Lib.Val Lib.PyInt Gen.GenDedup.
 Open Scope Z_scope.
 
 (* ------------------------------------------------------------------ pysam: aligned pairs
@@ -73,13 +80,17 @@ Inductive cop : Type := CM (n : Z) | CN (n : Z).
 Fixpoint cigar_from (prev_end : Z) (rs : list (Z * Z)) : list cop :=
   match rs with
   | [] => []
-  | (s, e) :: t => CN (s - prev_end - 1) :: CM (e - s + 1) :: cigar_from e t
+  | (s, e) :: t => CN (gen_cigar_gap_len s prev_end) :: CM (gen_cigar_block_len s e) :: cigar_from e t
   end.
 Definition cigar_of_runs (rs : list (Z * Z)) : list cop :=
-  match rs with [] => [] | (s, e) :: t => CM (e - s + 1) :: cigar_from e t end.
+  match rs with [] => [] | (s, e) :: t => CM (gen_cigar_block_len s e) :: cigar_from e t end.
+(* what get_CIGAR hands to generate_partial_reads: (operation character, amount) pairs *)
+Definition raw_of (o : cop) : Z * Z :=
+  match o with CM n => (gen_cigar_block_op, n) | CN n => (gen_cigar_gap_op, n) end.
+Definition get_cigar (rs : list (Z * Z)) : list (Z * Z) := map raw_of (cigar_of_runs rs).
 (* alignment_start = min over the block starts (None without blocks) *)
 Definition alignment_start (rs : list (Z * Z)) : option Z :=
-  match rs with [] => None | (s, _) :: t => Some (fold_left Z.min (map fst t) s) end.
+  match rs with [] => None | (s, _) :: t => Some (fold_left gen_alignment_start (map fst t) s) end.
 
 (* ------------------------------------------------------------------ base calling (sequtils) *)
 Definition baseN : Z := 78.
@@ -130,13 +141,18 @@ Section Call.
     let t := qsum (map snd l) in
     most_common (map (fun kv => (fst kv, (snd kv / t)%Q)) l).
 
-  (* phredscores_to_base_call *)
-  Definition call (os : list (Z * Z)) : Z * Q :=
-    match base_probs os with
-    | [] => (baseN, 0%Q)
-    | [(b, p)] => (b, p)
-    | (b, p) :: (_, p2) :: _ => if Qeq_bool p p2 then (baseN, 0%Q) else (b, p)
-    end.
+  (* phredscores_to_base_call: the decision on the ranked list.  The undecidable test is the source's
+     (len(base_probs) == 0 or (len(base_probs) >= 2 and base_probs[0][1] == base_probs[1][1])) *)
+  Definition eq01 (l : list (Z * Q)) : bool :=
+    match l with (_, p) :: (_, p2) :: _ => Qeq_bool p p2 | _ => false end.
+  Definition no_call (l : list (Z * Q)) : bool := gen_no_call (Z.of_nat (length l)) (eq01 l).
+  Definition no_call_result : Z * Q := (gen_no_call_base, inject_Z gen_no_call_prob).
+  Definition decide (l : list (Z * Q)) : Z * Q :=
+    if no_call l then no_call_result
+    else match l with (b, p) :: _ => (b, p) | [] => no_call_result end.
+  Definition call (os : list (Z * Z)) : Z * Q := decide (base_probs os).
+  (* the same decision on the likelihoods before the division by their total *)
+  Definition call_raw (os : list (Z * Z)) : Z * Q := decide (most_common (likelihoods os)).
 
   (* The same call without the division by the total (Proofs: equal to [fst (call os)] whenever
      0 <= pc q < 1), together with how far the two best are apart: 0 clear, 1 exact tie,
@@ -144,57 +160,133 @@ Section Call.
      numbers four times longer); the class lets the correspondence check leave out calls that
      IEEE rounding may decide. *)
   Definition call_fast (os : list (Z * Z)) : Z * Z :=
-    match most_common (likelihoods os) with
-    | [] => (baseN, 0)
-    | [(b, _)] => (b, 0)
-    | (b, v1) :: (_, v2) :: _ =>
-        if Qeq_bool v1 v2 then (baseN, 1)
-        else (b, if Qle_bool v1 ((v1 - v2) * inject_Z (2 ^ 20))%Q then 0 else 2)
-    end.
+    let l := most_common (likelihoods os) in
+    if no_call l then (gen_no_call_base, match l with _ :: _ :: _ => 1 | _ => 0 end)
+    else match l with
+         | (b, v1) :: (_, v2) :: _ => (b, if Qle_bool v1 ((v1 - v2) * inject_Z (2 ^ 20))%Q then 0 else 2)
+         | (b, _) :: _ => (b, 0)
+         | [] => (gen_no_call_base, 0)
+         end.
 End Call.
+
+(* ------------------------------------------------------------------ phred quality of a consensus base
+   extract_stretch_from_dict:  np.rint(-10 * np.log10(np.clip(1 - p, lo, hi))).astype('B')
+   rint(-10 log10 x) = k  iff  10^(-(2k+1)/20) < x < 10^(-(2k-1)/20)  (the bounds are irrational, so no
+   tie of rint occurs): the quality is the number of thresholds tt_k = 10^(-(2k+1)/20), k = 0, 1, .., above x.
+   The clip keeps x inside [lo, hi], i.e. the quality inside 0 .. 90 for the source's bounds. *)
+Definition qlt (a b : Q) : bool := negb (Qle_bool b a).
+Definition q_of (p : Z * Z) : Q := Qmake (fst p) (Z.to_pos (snd p)).
+Definition clip_lo : Q := q_of gen_clip_lo.
+Definition clip_hi : Q := q_of gen_clip_hi.
+(* np.clip(x, lo, hi) = minimum(maximum(x, lo), hi) *)
+Definition clipq (x : Q) : Q := if qlt x clip_lo then clip_lo else if qlt clip_hi x then clip_hi else x.
+Definition phred (tt : list Q) (p : Q) : Z :=
+  Z.of_nat (length (filter (qlt (clipq (1 - p)%Q)) tt)).
+(* quality of one column: the probability phredscores_to_base_call reports for it; a position without
+   observation reads the default (base, probability) of extract_stretch_from_dict *)
+Definition col_qual (pc : Z -> Q) (tt : list Q) (os : list (Z * Z)) : Z :=
+  match os with
+  | [] => phred tt (inject_Z gen_default_prob)
+  | _ => phred tt (snd (call pc os))
+  end.
+
+(* the table the correspondence check passes: numerators over 2^60; the comparison x < T / 2^60 is
+   floor(x * 2^60) < T, one division per column (Proofs: the same quality) *)
+Definition two60 : positive := (2 ^ 60)%positive.
+Definition tt_of (ttab : list Z) : list Q := map (fun T => Qmake T two60) ttab.
+Definition floor60 (x : Q) : Z := (Qnum x * Zpos two60) / Zpos (Qden x).
+Definition phred_floor (ttab : list Z) (p : Q) : Z :=
+  let X := floor60 (clipq (1 - p)%Q) in Z.of_nat (length (filter (fun T => X <? T) ttab)).
+(* the 90 thresholds of a quality 0 .. 90: floor(10^(-(2k+1)/20) * 2^60), k = 0 .. 89
+   (Proofs/C15_q.v ttab90_exact: T^20 * 10^(2k+1) <= 2^1200 < (T+1)^20 * 10^(2k+1) for each of them) *)
+Definition ttab90 : list Z := [
+  1027542372575421786; 816205918912234752; 648335406741065480; 514991119145879580;
+  409071986569828657; 324937428967166987; 258106974347336366; 205021657303345105;
+  162854491126012714; 129359920453046846; 102754237257542178; 81620591891223475;
+  64833540674106548; 51499111914587958; 40907198656982865; 32493742896716698;
+  25810697434733636; 20502165730334510; 16285449112601271; 12935992045304684;
+  10275423725754217; 8162059189122347; 6483354067410654; 5149911191458795;
+  4090719865698286; 3249374289671669; 2581069743473363; 2050216573033451;
+  1628544911260127; 1293599204530468; 1027542372575421; 816205918912234;
+  648335406741065; 514991119145879; 409071986569828; 324937428967166;
+  258106974347336; 205021657303345; 162854491126012; 129359920453046;
+  102754237257542; 81620591891223; 64833540674106; 51499111914587;
+  40907198656982; 32493742896716; 25810697434733; 20502165730334;
+  16285449112601; 12935992045304; 10275423725754; 8162059189122;
+  6483354067410; 5149911191458; 4090719865698; 3249374289671;
+  2581069743473; 2050216573033; 1628544911260; 1293599204530;
+  1027542372575; 816205918912; 648335406741; 514991119145;
+  409071986569; 324937428967; 258106974347; 205021657303;
+  162854491126; 129359920453; 102754237257; 81620591891;
+  64833540674; 51499111914; 40907198656; 32493742896;
+  25810697434; 20502165730; 16285449112; 12935992045;
+  10275423725; 8162059189; 6483354067; 5149911191;
+  4090719865; 3249374289; 2581069743; 2050216573;
+  1628544911; 1293599204 ].
+Definition prob_fast (pc : Z -> Q) (os : list (Z * Z)) : Q :=
+  match os with
+  | [] => inject_Z gen_default_prob
+  | _ => (snd (call_raw pc os) / qsum (map snd (likelihoods pc os)))%Q
+  end.
+Definition col_qual_fast (pc : Z -> Q) (ttab : list Z) (os : list (Z * Z)) : Z :=
+  phred_floor ttab (prob_fast pc os).
 
 (* obs dict of deduplicate_majority: position -> call; extract_stretch_from_dict reads it with
    .get(pos, ('N', 0)) *)
 Definition obs_at (all : list obs) (p : Z) : list (Z * Z) :=
   map (fun o => (o_base o, o_qual o)) (filter (fun o => o_pos o =? p) all).
 Definition call_at (caller : list (Z * Z) -> Z) (all : list obs) (p : Z) : Z :=
-  match obs_at all p with [] => baseN | os => caller os end.
+  match obs_at all p with [] => gen_default_base | os => caller os end.
+Definition qual_at (qcaller : list (Z * Z) -> Z) (all : list obs) (p : Z) : Z := qcaller (obs_at all p).
 
 (* ------------------------------------------------------------------ generate_partial_reads *)
 Record partial := mkPartial {
-  pa_start : Z; pa_end : option Z; pa_seq : list Z; pa_cigar : list cop; pa_md : list (Z * Z) }.
+  pa_start : Z; pa_end : option Z; pa_seq : list Z; pa_qual : list Z; pa_cigar : list cop; pa_md : list (Z * Z) }.
 
 Record gstate := mkG {
   g_pos : Z; g_start : Z; g_end : option Z; g_cig : list cop;
-  g_seq : list Z; g_md : list (Z * Z); g_out : list partial }.
+  g_seq : list Z; g_qual : list Z; g_md : list (Z * Z); g_out : list partial }.
 
 Section Partial.
   Variable callf : Z -> Z.           (* extract_stretch_from_dict: position -> called base *)
+  Variable qualf : Z -> Z.           (* extract_stretch_from_dict: position -> phred quality of the call *)
   Variable maxN : option Z.          (* max_N_span *)
 
   Definition emit (st : gstate) : partial :=
-    mkPartial (g_start st) (g_end st) (g_seq st) (g_cig st) (g_md st).
+    mkPartial (g_start st) (g_end st) (g_seq st) (g_qual st) (g_cig st) (g_md st).
 
-  Definition too_long (a : Z) : bool := match maxN with Some m => m <? a | None => false end.
+  (* the source's  max_N_span is not None and amount > max_N_span *)
+  Definition too_long (a : Z) : bool :=
+    match maxN with Some m => gen_split true m a | None => gen_split false 0 a end.
 
   Definition step (st : gstate) (o : cop) : gstate :=
     match o with
     | CN a =>
         if too_long a
-        then mkG (g_pos st + a) (g_start st) (g_end st) [] [] [] (g_out st ++ [emit st])
+        then mkG (g_pos st + a) (g_start st) (g_end st) [] [] [] [] (g_out st ++ [emit st])
         else mkG (g_pos st + a) (g_start st) (g_end st) (g_cig st ++ [CN a])
-                 (g_seq st) (g_md st) (g_out st)
+                 (g_seq st) (g_qual st) (g_md st) (g_out st)
     | CM a =>
-        let s := match g_cig st with [] => g_pos st | _ => g_start st end in
+        let s := if gen_first_block (Z.of_nat (length (g_cig st))) then g_pos st else g_start st in
         let e := g_pos st + a in
         mkG e s (Some e) (g_cig st ++ [CM a])
             (g_seq st ++ map callf (zrange (g_pos st) e))
+            (g_qual st ++ map qualf (zrange (g_pos st) e))
             (g_md st ++ [(g_pos st, e)]) (g_out st)
     end.
 
-  Definition g_init (start : Z) : gstate := mkG start start None [] [] [] [].
+  (* the loop body of generate_partial_reads dispatches on the operation character; an operation that
+     is neither the gap nor the block character falls through both branches *)
+  Definition step_raw (st : gstate) (o : Z * Z) : gstate :=
+    if fst o =? gen_branch_gap_op then step st (CN (snd o))
+    else if fst o =? gen_branch_block_op then step st (CM (snd o))
+    else st.
+
+  Definition g_init (start : Z) : gstate := mkG start start None [] [] [] [] [].
   Definition partial_reads (cigar : list cop) (start : Z) : list partial :=
     let st := fold_left step cigar (g_init start) in g_out st ++ [emit st].
+  Definition partial_reads_raw (cigar : list (Z * Z)) (start : Z) : list partial :=
+    let st := fold_left step_raw cigar (g_init start) in g_out st ++ [emit st].
 End Partial.
 
 (* ------------------------------------------------------------------ create_MD_tag *)
@@ -211,12 +303,12 @@ Fixpoint uint_codes (u : uint) : list Z :=
   end.
 (* str(n) *)
 Definition num (n : N) : list Z := uint_codes (N.to_uint n).
-Definition flush_num (n : N) : list Z := if (0 <? n)%N then num n else [].
+Definition flush_num (n : N) : list Z := if gen_md_flush (Z.of_N n) then num n else [].
 
 Fixpoint md_go (ref query : list Z) (no_change : N) : list Z :=
   match ref, query with
   | r :: ref', b :: query' =>
-      if upper r =? b then md_go ref' query' (N.succ no_change)
+      if gen_md_match (upper r) b then md_go ref' query' (N.succ no_change)
       else flush_num no_change ++ upper r :: md_go ref' query' 0%N
   | _, _ => flush_num no_change
   end.
@@ -257,33 +349,89 @@ Record meta := mkMeta {
   m_fragments : Z; m_overflow : Z; m_strand : option bool; m_mapq : list Z }.
 
 Record crec := mkRec {
-  c_start : Z; c_cigar : list cop; c_seq : list Z; c_md : list Z;
+  c_start : Z; c_cigar : list cop; c_seq : list Z; c_qual : list Z; c_md : list Z;
   c_reverse : bool; c_mapq : Z;
   c_SM : list Z; c_DS : option Z; c_RX : option (list Z); c_BC : option (list Z);
   c_MI : option (list Z); c_TF : Z }.
 
 Definition block_positions (bl : list (Z * Z)) : list Z := flat_map (fun b => zrange (fst b) (snd b)) bl.
 
+(* write_tags_to_psuedoreads: the tag table regenerated from the source (gen_tags): tag code 256*c0+c1,
+   guard (0 always, 1 the molecule has a cut site, 2 it has a UMI, 3 not modelled),
+   value kind (1 sample, 2 site, 3 UMI, 4 barcode, 5 barcode ++ UMI, 6 fragments + overflow, 0 not modelled) *)
+Inductive tagv : Type := TStr (s : list Z) | TInt (z : Z).
+Definition guard_ok (g : Z) (m : meta) : bool :=
+  if g =? 0 then true
+  else if g =? 1 then (match m_site m with Some _ => true | None => false end)
+  else if g =? 2 then (match m_umi m with Some _ => true | None => false end)
+  else false.
+Definition tag_value (kind : Z) (m : meta) : option tagv :=
+  if kind =? 1 then Some (TStr (m_sample m))
+  else if kind =? 2 then option_map TInt (m_site m)
+  else if kind =? 3 then option_map TStr (m_umi m)
+  else if kind =? 4 then Some (TStr (m_bc m))
+  else if kind =? 5 then option_map (fun u => TStr (m_bc m ++ u)) (m_umi m)
+  else if kind =? 6 then Some (TInt (gen_TF (m_fragments m) (m_overflow m)))
+  else None.
+Definition tags_of (m : meta) : list (Z * tagv) :=
+  flat_map (fun e => if guard_ok (snd (fst e)) m
+                     then match tag_value (snd e) m with Some v => [(fst (fst e), v)] | None => [] end
+                     else []) gen_tags.
+Fixpoint tag_get (code : Z) (l : list (Z * tagv)) : option tagv :=
+  match l with [] => None | (k, v) :: t => if k =? code then Some v else tag_get code t end.
+Definition tag_str (code : Z) (m : meta) : option (list Z) :=
+  match tag_get code (tags_of m) with Some (TStr s) => Some s | _ => None end.
+Definition tag_int (code : Z) (m : meta) : option Z :=
+  match tag_get code (tags_of m) with Some (TInt z) => Some z | _ => None end.
+Definition tagSM : Z := 21325.  Definition tagDS : Z := 17491.  Definition tagRX : Z := 21080.
+Definition tagBC : Z := 16963.  Definition tagMI : Z := 19785.  Definition tagTF : Z := 21574.
+
 Definition record_of (ref : Z -> Z) (m : meta) (p : partial) : crec :=
-  mkRec (pa_start p) (pa_cigar p) (pa_seq p)
+  mkRec (pa_start p) (pa_cigar p) (pa_seq p) (pa_qual p)
         (md_tag (map ref (block_positions (pa_md p))) (pa_seq p))
         (match m_strand m with Some b => b | None => false end)
         (fold_left Z.max (m_mapq m) 0)
-        (m_sample m) (m_site m) (m_umi m)
-        (match m_umi m with Some _ => Some (m_bc m) | None => None end)
-        (match m_umi m with Some u => Some (m_bc m ++ u) | None => None end)
-        (m_fragments m + m_overflow m).
+        (match tag_str tagSM m with Some s => s | None => [] end)
+        (tag_int tagDS m) (tag_str tagRX m) (tag_str tagBC m) (tag_str tagMI m)
+        (match tag_int tagTF m with Some z => z | None => 0 end).
 
 (* deduplicate_majority; None = the molecule has no aligned position (outside the property).
-   caller = the base caller of one column: [fun os => fst (call pc os)] (phredscores_to_base_call) *)
-Definition consensus (caller : list (Z * Z) -> Z) (ref : Z -> Z) (maxN : option Z) (m : meta)
+   caller = the base caller of one column: [fun os => fst (call pc os)] (phredscores_to_base_call),
+   qcaller = the quality of one column: [col_qual pc tt] *)
+Definition consensus (caller qcaller : list (Z * Z) -> Z) (ref : Z -> Z) (maxN : option Z) (m : meta)
   (reads : list read) : option (list crec) :=
   let all := all_obs reads in
   let rs := runs (sort_uniq (map o_pos all)) in
   match alignment_start rs with
   | None => None
-  | Some s => Some (map (record_of ref m) (partial_reads (call_at caller all) maxN (cigar_of_runs rs) s))
+  | Some s => Some (map (record_of ref m)
+                        (partial_reads_raw (call_at caller all) (qual_at qcaller all) maxN (get_cigar rs) s))
   end.
+
+(* ------------------------------------------------------------------ the request as a whole: what is raised, what is skipped
+   get_dedup_reads: no chromosome -> no record at all (and no exception);
+   no aligned position -> np.concatenate([]) raises ValueError before the reference is touched;
+   no reference attached -> self.reference.fetch raises AttributeError on the first record; list(..) in
+   deduplicate_majority then returns nothing (no partial result).
+   Reads carry the contig they are aligned to; the code pools the positions of ALL reads whatever their
+   contig (keys are (self.chromosome, position)) and puts every record on the molecule's chromosome. *)
+Inductive outcome : Type :=
+| Records (contig : option Z) (recs : list crec)
+| RaiseNoCoverage          (* ValueError: need at least one array to concatenate *)
+| RaiseNoReference.        (* AttributeError: 'NoneType' object has no attribute 'fetch' *)
+
+Definition consensus_x (caller qcaller : list (Z * Z) -> Z) (ref : option (Z -> Z)) (maxN : option Z) (m : meta)
+  (chrom : option Z) (creads : list (Z * read)) : outcome :=
+  match chrom with
+  | None => Records None []
+  | Some k =>
+      match consensus caller qcaller (match ref with Some f => f | None => fun _ => baseN end) maxN m (map snd creads) with
+      | None => RaiseNoCoverage
+      | Some recs => match ref with Some _ => Records (Some k) recs | None => RaiseNoReference end
+      end
+  end.
+Definition reads_on (k : Z) (creads : list (Z * read)) : list read :=
+  map snd (filter (fun cr => fst cr =? k) creads).
 
 (* ------------------------------------------------------------------ one molecule object over time
    The object is grown by add_fragment / add_molecule and asked for its consensus in between.
@@ -326,9 +474,9 @@ Fixpoint run_ops {A} (answer : option Z -> list frag -> A) (ops : list mop) (st 
   | o :: t => (match o with Consensus mx => [answer mx st] | _ => [] end) ++ run_ops answer t (apply_op st o)
   end.
 
-Definition answer (caller : list (Z * Z) -> Z) (ref : Z -> Z) (b : base_meta) (mx : option Z)
+Definition answer (caller qcaller : list (Z * Z) -> Z) (ref : Z -> Z) (b : base_meta) (mx : option Z)
   (fs : list frag) : option (list crec) :=
-  consensus caller ref mx (meta_of b fs) (reads_of fs).
+  consensus caller qcaller ref mx (meta_of b fs) (reads_of fs).
 
 (* the unrepaired reference stretch of get_dedup_reads: fetch(reference_start, reference_end), gaps included *)
 Definition md_old (ref : Z -> Z) (p : partial) : list Z :=
@@ -348,14 +496,15 @@ Fixpoint query_len (c : list cop) : Z :=
   match c with [] => 0 | CM n :: t => n + query_len t | CN _ :: t => query_len t end.
 
 (* ------------------------------------------------------------------ I/O glue
-   input  [ptab; [ref_off; ref codes]; maxN (opt); meta; reads]
+   input  [ptab; [ref_off; ref codes]; maxN (opt); meta; reads; ttab; [has_ref; chrom opt; contig of each read]]
      ptab  = numerators of pc(q) over 2^60, index q
+     ttab  = numerators over 2^60 of the quality thresholds 10^(-(2k+1)/20), k = 0 .. 89
      meta  = [sample; umi opt; site opt; bc; nfrag; overflow; strand opt; mapqs]
      read  = [start; [[op; len] ...]; seq codes; quals]
    output (mode 0) [] when no position is aligned, else
      [[start; [[op;len]...]; seq; md; reverse; mapq; SM; DS opt; RX opt; BC opt; MI opt; TF;
-       margin classes per base] ...]   (op: 0 = M, 3 = N) *)
-Definition two60 : positive := (2 ^ 60)%positive.
+       margin classes per base; qualities] ...]   (op: 0 = M, 3 = N)
+   ttab = [] stands for ttab90 *)
 Definition pc_of (tab : list Z) (q : Z) : Q :=
   if q <? 0 then 0%Q else Qmake (nth (Z.to_nat q) tab 0) two60.
 Definition valid_tab (tab : list Z) : bool := forallb (fun n => (0 <=? n) && (n <? Zpos two60)) tab.
@@ -374,9 +523,12 @@ Definition enc_cop (c : cop) : Val := match c with CM n => VL [VZ 0; VZ n] | CN 
 Definition enc_rec (classes : list Z) (r : crec) : Val :=
   VL [VZ (c_start r); VL (map enc_cop (c_cigar r)); ofZs (c_seq r); ofZs (c_md r);
       ofB (c_reverse r); VZ (c_mapq r); ofZs (c_SM r); ofOpt VZ (c_DS r); ofOpt ofZs (c_RX r);
-      ofOpt ofZs (c_BC r); ofOpt ofZs (c_MI r); VZ (c_TF r); ofZs classes].
+      ofOpt ofZs (c_BC r); ofOpt ofZs (c_MI r); VZ (c_TF r); ofZs classes; ofZs (c_qual r)].
+Definition enc_recs (pc : Z -> Q) (all : list obs) (recs : list crec) : Val :=
+  VL (map (fun r => enc_rec (map (fun p => snd (call_fast pc (obs_at all p))) (expand (c_start r) (c_cigar r))) r) recs).
+Definition ttab_in (v : Val) : list Z := match getZs v with [] => ttab90 | l => l end.
 
-(* mode 4 input [ptab; [ref_off; ref codes]; [sample; site opt; bc; strand opt]; ops]
+(* mode 4 input [ptab; [ref_off; ref codes]; [sample; site opt; bc; strand opt]; ops; ttab]
      op = [0; frag] | [1; [frag ...]] | [2; maxN opt];  frag = [umi; mapq; [read ...]]
    output: one mode-0 style answer per consensus request *)
 Definition dec_frag (v : Val) : frag :=
@@ -386,14 +538,21 @@ Definition dec_op (v : Val) : mop :=
   if k =? 0 then AddFragment (dec_frag (nthV 1 v))
   else if k =? 1 then AddMolecule (map dec_frag (getL (nthV 1 v)))
   else Consensus (dec_opt getZ (nthV 1 v)).
-Definition enc_answer (pc : Z -> Q) (fs : list frag) (a : option (list crec)) : Val :=
+Definition enc_answer (pc : Z -> Q) (ttab : list Z) (fs : list frag) (a : option (list crec)) : Val :=
   match a with
   | None => VL []
-  | Some recs =>
-      let all := all_obs (reads_of fs) in
-      VL (map (fun r => enc_rec (map (fun p => snd (call_fast pc (obs_at all p)))
-                                      (expand (c_start r) (c_cigar r))) r) recs)
+  | Some recs => enc_recs pc (all_obs (reads_of fs)) recs
   end.
+
+(* the thresholds must decrease strictly and lie inside the clip bounds (then the quality is the
+   band the clipped 1 - p falls into, 0 .. length ttab) *)
+Fixpoint decreasing (l : list Z) : bool :=
+  match l with
+  | a :: ((b :: _) as t) => (b <? a) && decreasing t
+  | _ => true
+  end.
+Definition valid_ttab (ttab : list Z) : bool :=
+  decreasing ttab && forallb (fun T => qlt clip_lo (Qmake T two60) && negb (qlt clip_hi (Qmake T two60))) ttab.
 
 Definition run_C15 (mode : Z) (v : Val) : Val :=
   let pc := pc_of (getZs (nthV 0 v)) in
@@ -403,13 +562,11 @@ Definition run_C15 (mode : Z) (v : Val) : Val :=
   let reads := map dec_read (getL (nthV 4 v)) in
   match mode with
   | 0 =>
-      if negb (valid_tab (getZs (nthV 0 v))) then bad else
-      match consensus (fun os => fst (call_fast pc os)) ref maxN m reads with
+      let ttab := ttab_in (nthV 5 v) in
+      if negb (valid_tab (getZs (nthV 0 v)) && valid_ttab ttab) then bad else
+      match consensus (fun os => fst (call_fast pc os)) (col_qual_fast pc ttab) ref maxN m reads with
       | None => VL []
-      | Some recs =>
-          let all := all_obs reads in
-          VL (map (fun r => enc_rec (map (fun p => snd (call_fast pc (obs_at all p)))
-                                          (expand (c_start r) (c_cigar r))) r) recs)
+      | Some recs => enc_recs pc (all_obs reads) recs
       end
   | 1 => (* precondition of the theorems: some position aligned, qualities inside the table,
             reference bases are letters over the covered span *)
@@ -421,10 +578,29 @@ Definition run_C15 (mode : Z) (v : Val) : Val :=
                    (getL (nthV 1 v)) in
       VL [ofZs (expand (getZ (nthV 0 v)) c); VZ (query_len c)]
   | 4 =>
-      if negb (valid_tab (getZs (nthV 0 v))) then bad else
+      let ttab := ttab_in (nthV 4 v) in
+      if negb (valid_tab (getZs (nthV 0 v)) && valid_ttab ttab) then bad else
       let b := mkBase (getZs (nthV 0 (nthV 2 v))) (dec_opt getZ (nthV 1 (nthV 2 v)))
                       (getZs (nthV 2 (nthV 2 v))) (dec_opt getB (nthV 3 (nthV 2 v))) in
-      VL (run_ops (fun mx fs => enc_answer pc fs (answer (fun os => fst (call_fast pc os)) ref b mx fs))
+      VL (run_ops (fun mx fs => enc_answer pc ttab fs
+                     (answer (fun os => fst (call_fast pc os)) (col_qual_fast pc ttab) ref b mx fs))
                   (map dec_op (getL (nthV 3 v))) [])
+  | 5 => (* the whole request: [kind; contig opt; records]; kind 0 records, 1 ValueError (no aligned
+            position), 2 AttributeError (no reference) *)
+      let ttab := ttab_in (nthV 5 v) in
+      if negb (valid_tab (getZs (nthV 0 v)) && valid_ttab ttab) then bad else
+      let x := nthV 6 v in
+      let contigs := getZs (nthV 2 x) in
+      let creads := combine (contigs ++ repeat 0 (length reads - length contigs)) reads in
+      match consensus_x (fun os => fst (call_fast pc os)) (col_qual_fast pc ttab)
+                        (if getB (nthV 0 x) then Some ref else None) maxN m (dec_opt getZ (nthV 1 x)) creads with
+      | Records k recs => VL [VZ 0; ofOpt VZ k; enc_recs pc (all_obs reads) recs]
+      | RaiseNoCoverage => VL [VZ 1; VL []; VL []]
+      | RaiseNoReference => VL [VZ 2; VL []; VL []]
+      end
+  | 6 => (* phred of a probability given as [num; den]: [.. ; ttab at 5; [num; den] at 6] -> [quality; floor(clipped (1 - p) * 2^60)] *)
+      let ttab := ttab_in (nthV 5 v) in
+      let p := Qmake (getZ (nthV 0 (nthV 6 v))) (Z.to_pos (getZ (nthV 1 (nthV 6 v)))) in
+      VL [VZ (phred_floor ttab p); VZ (floor60 (clipq (1 - p)%Q))]
   | _ => bad
   end.
